@@ -1260,3 +1260,15 @@ class P(Prop):
         finally:
             shutil.rmtree(d, True)
         return {"runs": runs, "info": info, "failures": failures}
+
+
+# ---- cases marked "oracle_only" (a cell longer than the csv module's default field limit) are decided by the
+# independent oracle alone: the Lean csv automaton is quadratic in the cell length
+_BaseP13 = P
+
+
+class P(_BaseP13):
+    def model_request(self, case, impl_out):
+        if isinstance(case, dict) and case.get("oracle_only"):
+            return None
+        return super().model_request(case, impl_out)
